@@ -71,13 +71,22 @@ def vSwap (v new : Iface) : Iface × VOut :=
   | some m => (v, .panic m)
   | none => (new, .val v)
 
-/-- atomic.go:188-203 -/
+/-- REPAIRED DEFECT (fixes/C13-atomic-value-cas.patch) — before the repair the type check was
+    `if !(v.v == nil && old == nil) && !sameType(old, new)` -/
+def vCasOld (v old new : Iface) : Iface × VOut :=
+  match checkNew v new with
+  | some m => (v, .panic m)
+  | none =>
+    if !(v = none ∧ old = none) ∧ !sameType old new then (v, .panic .typed)
+    else if v ≠ old then (v, .bool false)
+    else (new, .bool true)
+
+/-- atomic.go:188-203 `CompareAndSwap`: `if old != nil && !sameType(old, new) { panic }` -/
 def vCas (v old new : Iface) : Iface × VOut :=
   match checkNew v new with
   | some m => (v, .panic m)
   | none =>
-    if !(v = none ∧ old = none) ∧ !sameType old new then
-      (v, .panic .typed)
+    if old ≠ none ∧ !sameType old new then (v, .panic .typed)
     else if v ≠ old then (v, .bool false)
     else (new, .bool true)
 
